@@ -2,11 +2,12 @@
 
 Proof part: Lean theorems over an executable machine-arithmetic model (explicit C widths, every
 intermediate checked) of li_restricted_strtoint64, the two chunk-size accumulators, http_header_parse_hoff,
-http_range_parse (+ coalescing), buffer.c growth, ck_realloc_u32 and the HTTP/2 frame-length checks.
+buffer.c growth, ck_realloc_u32, the HTTP/2 frame-length checks and h2_recv_continuation; the arithmetic of
+http_range.c is proved in checked form over the C15 model (Model/Range.lean).
 Correspondence: the real functions (ASan+UBSan build of the current tree) against the model on
-boundary-heavy inputs.  Exploration part (no model, "no sanitizer report / abort / malformed result"):
-HTTP/2 frame streams through h2_parse_frames, HTTP-date, ETag lists, Forwarded / X-Forwarded-For,
-Digest Authorization parameters.
+boundary-heavy inputs.  Exploration part (no model; "no sanitizer report / abort / malformed result"):
+HTTP/2 frame streams through h2_parse_frames, http_range_parse on an exact-size array, HTTP-date, ETag
+lists, Forwarded / X-Forwarded-For, Digest Authorization parameters.
 """
 import os, re, struct, time
 from concurrent.futures import ThreadPoolExecutor
@@ -57,7 +58,7 @@ def _run_chunk(cmd, lines, timeout=1800):
                 if guard > 3:
                     out += ["<crash>"] * (len(lines) - i)
                     break
-            crashes.append((i, rc, err[-3000:]))
+            crashes.append((i, rc, err if len(err) <= 6000 else err[:3500] + "\n[...]\n" + err[-2000:]))
             out.append("<crash>")
             i += 1
             if len(crashes) > 200:               # hopeless: stop restarting
@@ -100,7 +101,8 @@ def crash_site(err):
             if "/harness/" not in f.group(2) and "/src/" in f.group(2) or "/repo" in f.group(2):
                 return "asan:%s:%s:%s:%s" % (m.group(1), f.group(1), os.path.basename(f.group(2)), f.group(3))
         return "asan:%s" % m.group(1)
-    return "died:" + (err.strip().split("\n")[-1][:80] if err.strip() else "no-output")
+    last = err.strip().split("\n")[-1][:80] if err.strip() else "no-output"
+    return "died:" + re.sub(r"\d+", "N", last)
 
 
 def stream(ctx, name, cmd, model, lines, oracle, classify, project=None):
@@ -116,12 +118,15 @@ def stream(ctx, name, cmd, model, lines, oracle, classify, project=None):
         if mrc != 0 or len(mod) != len(lines):
             ctx.broken.append({"kind": "model-run", "names": [model], "log": merr[-2000:]})
             mod = None
-    seen = set()
+    def weight(l):
+        t = l.split(" ")
+        return (len(t[2]) if t[0] == "ck1" else 0, len(l))
+    best = {}
     for i, rc, err in crashes:
         site = crash_site(err)
-        if site in seen:
-            continue
-        seen.add(site)
+        if site not in best or weight(lines[i]) < weight(lines[best[site][0]]):
+            best[site] = (i, rc, err)
+    for site, (i, rc, err) in sorted(best.items()):
         o1, rc1, err1 = C.run_lines(cmd, [lines[i]])
         ctx.violation("crash:%s:%s" % (name, site),
                       "sanitizer report / crash in %s: %s" % (name, site),
@@ -184,6 +189,21 @@ def near(rng, centers, spread=3):
 POW = [2 ** 7, 2 ** 8, 2 ** 15, 2 ** 16, 2 ** 31, 2 ** 32, 2 ** 59, 2 ** 60, 2 ** 62, 2 ** 63, 2 ** 64]
 
 
+# inputs that exposed genuine defects of the pinned tree (all repaired in /repo: D10-D14); always run first
+REGRESSIONS = {
+    "ck": ["ck1 0 31 " + C.hx(b"7fffffffffffffdf\r\n"), "ck1 0 32 " + C.hx(b"7fffffffffffffdf\r\nab"),
+           "ck1 1 100 " + C.hx(b"7fffffffffffffdf\r\n"), "ck1 4194303 65536 " + C.hx(b"7ffffffffffffff0\r\n")],
+    "h2f": ["h2f 8192 000000040000000000000000010500000001",                        # D11 empty HEADERS: no :path
+            "h2f 8192 0000000400000000000000070105000000017f808080808001",          # D10 HPACK integer, 6 bytes
+            "h2f 8192 0000000400000000000000070105000000013f808080808001",
+            "h2f 8192 00000004000000000000000c0105000000018286844101617f8080808001"],
+    "px": ["dig 1700000000 ~ " + C.hx(b'username="u", realm="realm", nonce="8000000000000000:x", uri="/x", response="' + b"0" * 32 + b'"'),
+           "dig 1700000000 736563726574 " + C.hx(b'username="u", realm="realm", nonce="ffffffffffffffff:x", uri="/x", response="' + b"0" * 32 + b'"'),
+           "fwd 16 10.0.0.1 " + C.hx(b'for=1.2.3.4;remote_user=""'),
+           "fwd 31 10.0.0.1 " + C.hx(b'for=1.2.3.4;remote_user="", for=10.0.0.1')],
+}
+
+
 def gen_s64(ctx):
     rng = ctx.rng
     L = []
@@ -229,7 +249,7 @@ def ck_ref(line):
 
 def gen_ck(ctx):
     rng = ctx.rng
-    L = []
+    L = list(REGRESSIONS["ck"])
     sizes = [1, 2, 15, 16, 255, 256, 1023, 1024, 1025, 65534, 65535, 65536, 65537, 2 ** 31 - 1, 2 ** 31, 2 ** 32 - 1,
              2 ** 32, 2 ** 32 + 1, 2 ** 42 - 1, 2 ** 42, 2 ** 42 + 1, CK_GUARD - 1, CK_GUARD, CK_GUARD + 1,
              CK_GUARD + 2, CK_GUARD + 3, 2 ** 59, 2 ** 60 - 1, 2 ** 60, 2 ** 62, 2 ** 63 - 48, 2 ** 63 - 34,
@@ -592,7 +612,7 @@ def gen_h2d(ctx):
 def gen_h2f(ctx):
     """frame streams through h2_parse_frames(): exploration only"""
     rng = ctx.rng
-    L = []
+    L = list(REGRESSIONS["h2f"])
 
     def rand_frame(next_sid):
         r = rng.random()
@@ -642,7 +662,7 @@ def gen_h2f(ctx):
         t = rng.choice([5, 9, 0x0a, 0x20, 0xff])
         return fr(t, rng.getrandbits(8), sid, bytes(rng.getrandbits(8) for _ in range(rng.randint(0, 12))))
 
-    n = 6000 if ctx.quick else 80000
+    n = 20000 if ctx.quick else 250000
     for _ in range(n):
         frames = []
         if rng.random() < 0.8:
@@ -701,8 +721,8 @@ def mutate(rng, s, alphabet):
 
 def gen_px(ctx):
     rng = ctx.rng
-    L = []
-    n = 4000 if ctx.quick else 60000
+    L = list(REGRESSIONS["px"])
+    n = 8000 if ctx.quick else 80000
     nows = [0, 1, 1700000000, 2 ** 31 - 1, 2 ** 31, 253402300799, 2 ** 40]
     dalpha = list(b" ,-:0123456789GMTSunJanFebDec\x80\xff\t")
     for d in DATES:
@@ -1056,14 +1076,14 @@ def build_all(ctx):
 
 def harness_of(line):
     op = line.split(" ", 1)[0]
-    if op in ("s64", "ck1", "ck2", "hoff", "rng", "buf", "ckr", "itos"):
+    if op in ("s64", "ck1", "ck2", "hoff", "rng", "buf", "ckr"):
         return "h_arith"
     if op in ("h2f", "h2c", "h2h", "h2d", "prio"):
         return "h_arith_h2"
     return "h_arith_px"
 
 
-MODELLED = ("s64", "ck1", "ck2", "hoff", "rng", "buf", "ckr", "h2c", "h2h", "h2d")
+MODELLED = ("s64", "ck1", "ck2", "hoff", "buf", "ckr", "h2c", "h2d")
 
 
 def run(ctx):
@@ -1074,7 +1094,9 @@ def run(ctx):
     stream(ctx, "strtoint64(li_restricted_strtoint64)", [a], "arith", gen_s64(ctx), oracle, classify)
     stream(ctx, "chunk-size(h1_chunked,http_chunk_decode)", [a], "arith", gen_ck(ctx), oracle, classify)
     stream(ctx, "hoff(http_header_parse_hoff)", [a], "arith", gen_hoff(ctx), oracle, classify)
-    stream(ctx, "range(http_range_parse)", [a], "arith", gen_rng(ctx), oracle, classify)
+    # (http_range.c is modelled for C15 in Model/Range.lean and tied to the C by C15's own correspondence; here
+    #  the parser runs on an exact-size heap `off_t ranges[RMAX*2]` under the sanitizers + the bounds oracle)
+    stream(ctx, "explore:range(http_range_parse)", [a], None, gen_rng(ctx), oracle, classify)
     stream(ctx, "buffer-growth(buffer.c)", [a], "arith", gen_buf(ctx), oracle, classify)
     stream(ctx, "ck_realloc_u32", [a], "arith", gen_ckr(ctx), oracle, classify)
     stream(ctx, "h2-continuation(h2_recv_continuation)", [h2], "arith", gen_h2c(ctx), oracle, classify)
